@@ -59,9 +59,9 @@ CHECKS = {
             "Allowed roots: stdlib of the running interpreter, httpx, cattrs/attrs, typing_extensions, the package, its core, their ancestors.",
             "4 C12"),
     "C13": ("exploration", "bounded exhaustive enumeration of operation-shape pairs x tag patterns; introspective comparison of client / Protocol / mock in the runtime-only interpreter",
-            "Every ordered pair of 9 operation shapes (plain, optional params, overloads, byte stream, SSE, long wrapped signature, body+params, json+stream mixes) x 17 tag patterns is generated, "
+            "Every ordered pair of 13 operation shapes (plain, optional params, overloads, byte stream, SSE, long wrapped signature, body+params, json+stream mixes, default-only stream, bulk body, OPTIONS, HEAD) x 17 tag patterns is generated, "
             "imported and compared by inspect.signature (names, order, kinds, defaults, annotation text, return), call nature, isinstance against the runtime_checkable Protocol, "
-            "NotImplementedError behaviour of every mock method and tag-property parity of MockAPIClient.",
+            "NotImplementedError behaviour of every mock method and tag-property parity of MockAPIClient; plus in-process histories (another client generated earlier in the same process).",
             "Annotation equality is textual; documents with more than 3 operations are outside the bound.",
             "4 C13"),
     "C07": ("exploration", "bounded exhaustive enumeration of operation sets x tag patterns x operationId patterns x naming strategies x renderings; behavioural identification of every generated method",
@@ -112,9 +112,10 @@ CHECKS = {
             "Pristine converter = the module source executed under a fresh name; leaf menus have 2 values; str/bool/bytes coercions are not demanded to fail.",
             "4 C16"),
     "C17": ("exploration", "exhaustive enumeration of plugin sequences (<=3 from 9 instances, direct and composite) x header sources x caller arguments through the real HttpxTransport, compared with a reference pipeline model",
-            "Every ordered sequence of <=3 plugins out of 9 instances (820 sequences; thorough <=4) x transport defaults x per-request headers x caller params/json x bearer_token "
+            "Every ordered sequence of <=3 plugins out of 9 instances (820 sequences; thorough <=4) x transport defaults x per-request headers (str, Enum member, int) x caller "
+            "params/json/cookies (incl. falsy bodies) x bearer_token, three requests per transport, "
             "is sent through the real HttpxTransport over httpx.MockTransport; the captured request must carry per-request headers over defaults, each plugin's contribution in "
-            "composition order, API keys in their configured location/name, and the caller's params/body unchanged.",
+            "composition order, API keys in their configured location/name, the caller's params/body/cookies unchanged, nothing of an earlier request and no credential the configuration does not call for.",
             "Header names differing only in case: only presence of the highest-precedence value is demanded. Plugins are the bundled ones with fixed constructor arguments.",
             "4 C17"),
     "C11": ("model_checking", "explicit-state breadth-first search over generation histories with the real generator as transition function (state = project tree, canonicalised; fixpoint or depth bound), invariant = every generated client still imports",
@@ -126,7 +127,8 @@ CHECKS = {
             "checked when a canonical state is first reached.",
             "4 C11"),
     "C10": ("fault_enumeration", "exhaustive single-fault enumeration: every filesystem-mutating event of a generation (numbered through a CPython audit hook) fails once, plus stage-level faults, x force x existing-tree x layout; whole-tree snapshot oracle",
-            "For every configuration (force on/off x existing tree absent / equal / different / partially present / core missing x embedded / sibling / nested core) the fault-free run "
+            "For every configuration (force on/off x existing tree absent / equal / different / partially present / core missing / namespace-package ancestors x embedded / sibling / nested / "
+            "three-level / symlinked-inside-the-project layouts; plus post-processing switched on for fault-free runs and stage faults) the fault-free run "
             "numbers the W mutating filesystem events the generator performs (open-for-write, mkdir, rename, remove, rmtree, ... in the project tree and in its temp dir); "
             "then every k in 1..W is re-run with an OSError injected at the k-th event, plus faults before/after fetch, load and each emitter. A recursive "
             "(type,size,sha256,mtime) snapshot of the project root with sentinel files around the packages is compared before/after: non-force runs over an existing "
@@ -138,7 +140,9 @@ CHECKS = {
             "two clocks (24 processes per document) and all trees must be byte-identical. (b) Per layout a breadth-first search over histories of depth<=3 of "
             "gen(A|A+|B, force|noforce), edit, delete (states = project tree content hash, transitions = real generator runs) checks for every non-force run: if a forced "
             "run on a copy of the same state leaves package+core unchanged the run must succeed and touch nothing, otherwise it must raise and touch nothing; and every "
-            "forced run without other clients must equal a generation into an empty project.",
+            "forced run without other clients must equal a generation into an empty project. (c) 64 environment pairs (temp directory / project root through symlinks x post-processing) "
+            "for a forced generation followed by a non-force re-run, and 42 hand-made drifts of one generated file (indentation only, blank lines only, spacing, one character, deleted line) "
+            "that the non-force run must notice. Generations inside a history never reset generator state; reference generations run in pristine forked children.",
             "Hash seed, process history, wall clock and output root are the owned nondeterminism sources; id()-derived names are covered through fresh-vs-warm processes.",
             "4 C09"),
     "C15": ("exploration", "complete position x payload matrix through the real generator; AST-skeleton comparison against the benign twin + evaluation of meaning-carrying literals",
